@@ -478,4 +478,28 @@ def run(repo='/repo', tier='quick'):
                                   ('htp_connp_req_receiver_finalize_clear', 'htp_connp_res_receiver_finalize_clear', None), ('htp_connp_req_receiver_send_data', 'htp_connp_res_receiver_send_data', None),
                                   ('htp_connp_req_receiver_set', 'htp_connp_res_receiver_set', None),
                                   ('htp_connp_req_buffer', 'htp_connp_res_buffer', (('IF len == 0', 'return HTP_OK'), (), 'the request side returns early when there is nothing to buffer'))])
+    c03i(db, res)
     return res
+
+
+BUF_OWNERS = {'in': {'htp_connp_req_buffer', 'htp_connp_req_clear_buffer', 'htp_connp_destroy', 'htp_connp_create'}, 'out': {'htp_connp_res_buffer', 'htp_connp_res_clear_buffer', 'htp_connp_destroy', 'htp_connp_create'}}
+
+
+def c03i(db, res):
+    """The carry buffer holds the first part of a line whose rest has not arrived yet. It belongs to the buffering helpers: only
+    they store, free or reallocate it. Anybody else who releases it (a clean-up at the end of a transaction, say) throws away
+    the beginning of the next message when that was cut by a chunk boundary."""
+    res.rule('C03.i', 'only the buffering helpers touch the carry buffer: every store to {in,out}_buf and every free / realloc of it is in htp_connp_{req,res}_buffer, htp_connp_{req,res}_clear_buffer or the connection parser\'s constructor / destructor')
+    n = 0
+    for name, f in sorted(db.fn.items()):
+        if not f.blocks:
+            continue
+        for d in ('in', 'out'):
+            fld = '%s_buf' % d
+            sites = [w for b, i, w in P.field_writes(f, fld)]
+            sites += [c for b, i, c in f.calls() if c.get('callee') in ('free', 'realloc') and c.get('args') and P.member_field(c['args'][0]) == fld]
+            for w in sites:
+                n += 1
+                res.check(name in BUF_OWNERS[d], 'C03.i', '%s:touches:%s' % (name, fld), 'a buffering helper',
+                          '%s stores to / releases connp->%s: when the beginning of a line is waiting there for its rest (the line was cut by a chunk boundary) those bytes are lost, and the same bytes delivered in one piece are not' % (name, fld), w.get('loc', f.loc))
+    res.floor('C03.i', 'stores to / releases of the carry buffers', n, 8)
